@@ -631,3 +631,6 @@ def run(ctx):
     sub = SubCtx(ctx, "R5", prefix="environmental selection: ")
     c03.r1_cmp(sub, repo)
     c03.r2_truncate(sub, repo)
+    # ... and on the feasibility marker meaning the same for every design of an unconstrained problem (C05 rule)
+    from . import c05
+    c05.r3_marker_default(SubCtx(ctx, "R5", prefix="environmental selection: "), repo, rule="R5")
